@@ -165,8 +165,17 @@ class EvDomain(Domain):
             self.ev(st, Ev('opaque', n, name=q, obj=on, args=vals), fr); return Sym('cb-result')
         if n.n('calleeexpr') is not None or (n.ck == 'op' and n.op == '()' and (not n.callee_in_root or (n.callee_def or '').startswith('witness/'))):
             cal = n.n('calleeexpr') if n.n('calleeexpr') is not None else obj
-            self.ev(st, Ev('opaque', n, name=q or 'indirect', obj=self.obj_name(cal), val=ex._rvalue(cal, st, fr) if cal is not None else None, args=vals), fr)
-            return Sym('cb-result')
+            on2 = self.resolve_obj(ex, cal, st, fr) if cal is not None else None
+            raw = [ex._value(a, st, fr) if a is not None else None for a in args]
+            self.ev(st, Ev('opaque', n, name=q or 'indirect', obj=on2, val=ex._rvalue(cal, st, fr) if cal is not None else None, args=vals), fr)
+            # an opaque callable may write through every non-const lvalue reference it is handed
+            params = n.params or []
+            for i, rv in enumerate(raw):
+                pt = params[i] if i < len(params) else ''
+                if isinstance(rv, Ref) and pt.endswith('&') and not pt.endswith('&&') and not pt.startswith('const '):
+                    ex.write(rv.loc, Sym(f'havoc@{n.line}:{n.id}:{i}'), st, n)
+            r = self.opaque_result(ex, n, on2, vals, st, fr)
+            return r if r is not None else Sym('cb-result')
         ov = None
         if obj is not None:
             ov = ex._value(obj, st, fr)
@@ -175,6 +184,9 @@ class EvDomain(Domain):
         return r
 
     def vcall_result(self, ex, n, q, base, on, ov, vals, st, fr):
+        return None
+
+    def opaque_result(self, ex, n, on, vals, st, fr):
         return None
 
     def sync_closures(self, ex, n, st, fr):
